@@ -1361,7 +1361,7 @@ func (c *Client) isInTCPTimeout() bool {
 func (c *Client) doCheckTimeout() error {
 	if c.setuppedTransport.Protocol == ProtocolUDP ||
 		c.setuppedTransport.Protocol == ProtocolUDPMulticast {
-		if c.checkTimeoutInitial && !c.backChannelSetupped && c.Protocol == nil {
+		if c.checkTimeoutInitial && !c.backChannelSetupped && c.Protocol == nil && c.lastDescribeURL != nil {
 			c.checkTimeoutInitial = false
 
 			if !c.atLeastOneUDPPacketHasBeenReceived() {
